@@ -87,7 +87,9 @@ def gen_family(ctx, exe, f, procs, jobs):
                      % (f['label'], f['bound'], counts['generated'], counts['after_contract'], counts['after_symmetry'], len(legs), len(complete), nex,
                         min(outs) if outs else '-', max(outs) if outs else '-', sum(1 for o in outs if o <= 1), time.time() - t0))
     # vacuity guard: a family whose scripts all have one outcome collides with nothing
-    if len(complete) >= 8 and max(outs) <= 1 and not nviol:
+    if len(complete) >= 8 and max(outs) <= 1 and not nviol and len(complete) < counts['after_symmetry']:
+        ctx.notes.append('family %s: the %d scripts explored before the budget cut all have a single outcome (vacuity is only judged on a completely explored family)' % (f['label'], len(complete)))
+    elif len(complete) >= 8 and max(outs) <= 1 and not nviol:
         ctx.broken.append('family %s: every one of the %d explored scripts has a single outcome: the alphabet collides with nothing' % (f['label'], len(complete)))
     # the replay file of a generated script is self-contained (scenario = script text); add the expansion for the reader
     for rp, lab in ctx.violations[nviol0:]:
